@@ -394,17 +394,18 @@ Proof.
   assert (Ir : p_inv c true (fst r)).
   { unfold r. destruct (f_hup fl); simpl; auto.
     destruct (e_rd (ep_obj (st_ep s) id)) eqn:Rd.
-    - apply p_inv_invoke; auto. simpl. eapply p_inv_ep_rd; eauto.
-    - destruct (e_wd (ep_obj (st_ep s) id)) eqn:Wd.
-      + apply p_inv_invoke; auto. simpl. eapply p_inv_ep_wd; eauto.
-      + destruct (e_cd (ep_obj (st_ep s) id)) eqn:Cd; auto.
+    - simpl. apply p_inv_invoke; auto. simpl. eapply p_inv_ep_rd; eauto.
+    - destruct (e_cd (ep_obj (st_ep s) id)) eqn:Cd.
+      + simpl.
         assert (R : st_regr s n = true) by (eapply p_inv_ep_cd; eauto).
         assert (It : p_inv c true (p_touch s n)) by (apply p_inv_touch; auto).
         assert (Rt : st_regr (p_touch s n) n = true).
         { unfold p_touch. destruct (st_del s n); auto. }
         destruct (p_has_data (p_touch s n) n).
         * apply p_inv_invoke; auto.
-        * apply p_inv_ep_close; auto. }
+        * apply p_inv_ep_close; auto.
+      + destruct (e_wd (ep_obj (st_ep s) id)) eqn:Wd; simpl; auto.
+        apply p_inv_invoke; auto. simpl. eapply p_inv_ep_wd; eauto. }
   destruct r as [s1 fl1]. simpl in Ir.
   set (s2 := if f_in fl1 then _ else s1).
   assert (I2 : p_inv c true s2).
